@@ -9,7 +9,8 @@ ASCII bytes `\n`, `\r`, space and tab, so a byte model is exact). Offsets are by
 * `lineStartOffset`, `lineEndOffset`, `expandToFullLines` — same names in Rust
 * `lineIndentPrefix` — `line_indent_prefix`
 * `splitInclusive`  — `str::split_inclusive('\n')`; `splitLineEnding` — `split_line_ending`
-* `mapLines`, `stripBaseIndent`, `applyBaseIndent` — same names in Rust
+* `mapLines`, `stripBaseIndent`, `applyBaseIndent` — same names in Rust; the `keep` argument is the list of
+  line-start offsets inside multi-line tokens (`multiline_token_line_starts`), whose lines are copied verbatim
 * `splice`          — applying a `RangeFormatOutput { replace_range, text }` to the document
 
 Import-free (core only).
@@ -81,9 +82,17 @@ def splitEndingRev : Txt → Txt × Txt
 
 def splitLineEnding (l : Txt) : Txt × Txt := splitEndingRev l.reverse
 
-/-- `map_lines(text, f)` -/
-def mapLines (t : Txt) (f : Txt → Txt → Txt) : Txt :=
-  (splitInclusive t).flatMap fun l => f (splitLineEnding l).1 (splitLineEnding l).2
+/-- the loop of `map_lines`: `off` is the byte offset of the current line; a line whose start offset
+is listed in `keep` (a line that begins inside a multi-line token) is copied unchanged -/
+def mapLinesFrom (keep : List Nat) (f : Txt → Txt → Txt) : Nat → List Txt → Txt
+  | _, [] => []
+  | off, l :: ls =>
+    (if keep.contains off then l else f (splitLineEnding l).1 (splitLineEnding l).2)
+      ++ mapLinesFrom keep f (off + l.length) ls
+
+/-- `map_lines(text, keep_line_starts, f)` -/
+def mapLines (t : Txt) (keep : List Nat) (f : Txt → Txt → Txt) : Txt :=
+  mapLinesFrom keep f 0 (splitInclusive t)
 
 /-- `str::strip_prefix` -/
 def stripPrefix : Txt → Txt → Option Txt
@@ -91,14 +100,14 @@ def stripPrefix : Txt → Txt → Option Txt
   | _ :: _, [] => none
   | p :: ps, c :: cs => if p = c then stripPrefix ps cs else none
 
-/-- `strip_base_indent(text, indent_prefix)` -/
-def stripBaseIndent (t p : Txt) : Txt :=
-  mapLines t fun c n => (stripPrefix p c).getD c ++ n
+/-- `strip_base_indent(text, indent_prefix, token_line_starts)` -/
+def stripBaseIndent (t p : Txt) (keep : List Nat) : Txt :=
+  mapLines t keep fun c n => (stripPrefix p c).getD c ++ n
 
-/-- `apply_base_indent(text, indent_prefix)` -/
-def applyBaseIndent (t p : Txt) : Txt :=
+/-- `apply_base_indent(text, indent_prefix, token_line_starts)` -/
+def applyBaseIndent (t p : Txt) (keep : List Nat) : Txt :=
   if p.isEmpty then t else
-  mapLines t fun c n => if c.isEmpty then n else p ++ c ++ n
+  mapLines t keep fun c n => if c.isEmpty then n else p ++ c ++ n
 
 /-- the document after applying the edit `{replace_range = [s, e), text = r}` -/
 def splice (t : Txt) (s e : Nat) (r : Txt) : Txt := t.take s ++ r ++ t.drop e
